@@ -101,4 +101,30 @@ def genAfterSelFrom : Bool → List Eff → Bool
 
 def genAfterSel (r : List Eff) : Bool := genAfterSelFrom false r
 
+/-! ### what a request is answered under a configuration -/
+
+/-- how a request reaches the processor: through the API registrar (which replaces the generation of an outdated
+client by its own) or through the DNS registrar (which only tells the client that it is outdated); unidirectional
+registrations select nothing -/
+inductive Entry | api | dns | uni
+deriving DecidableEq, Repr
+
+/-- the generation the processor looks up -/
+def effectiveGen (c : Cfg) : Entry → Nat → Nat
+  | .api, g => if g < c.apiGen then c.apiGen else g
+  | _, g => g
+
+/-- the request is answered (the selector knows the generation it is asked for) -/
+def answered (c : Cfg) (e : Entry) (g : Nat) : Bool :=
+  match e with
+  | .uni => true
+  | e => c.sel.contains (effectiveGen c e g)
+
+/-- the steps of a round that have been taken when the reload goroutine is held reading the subnet file: everything
+before it asks for the write lock of the selector's mutex `k` -/
+def beforeSelLock (k : Nat) : List Eff → List Eff
+  | [] => []
+  | .lk m .lock :: r => if m = k then [] else .lk m .lock :: beforeSelLock k r
+  | e :: r => e :: beforeSelLock k r
+
 end CJ.ReloadPath
